@@ -53,6 +53,9 @@ TEXT = {
  "C08": ("deterministic simulation of call histories over shared (de)compressor pools with corrupt payloads and injected compressor failures; oracle from the raw exchange via the reference codec",
          "Seeded search over algorithm sets/orders x thresholds x sizes x protocols x kinds and over histories (sequences and interleavings) of valid and corrupt calls on shared pools made deterministic (LIFO) by the verif hooks, so that reuse of an instance after a failed call is guaranteed rather than left to sync.Pool.",
          "5 C08"),
+ "C09": ("deterministic simulation with honest and byzantine senders around the read limit; oracle: harness-computed wire/decompressed sizes, pool-hook buffer bound",
+         "Seeded search over limits x sizes x positions x compressions x protocols x directions, plus lying length prefixes, flagged oversized envelopes, false Content-Lengths and decompression bombs. The buffering bound is measured on pooled buffers through the verif hook (not RSS). The protocol's own end-of-stream block is not a message: limits smaller than it are only used where no such block exists.",
+         "5 C09"),
 }
 
 hooks_commits = subprocess.run(["git", "-C", "/repo", "log", "--format=%H", "--grep=^verif:"], capture_output=True, text=True).stdout.split()
